@@ -9,6 +9,19 @@ BASELINE = ("cd /repo && env -u GSCRIB_VERIF /venv/bin/python -m pytest -ra -q -
 
 # id -> (technique, level text, level note, design ref)
 CLAIMED = {
+    "C01": (
+        "Lean 4 invariant proof (Agree between the Builder model and an independent position machine, per command and by "
+        "induction over every prefix of every history) + differential correspondence incl. all tracer shapes driven through "
+        "the real PathTracer",
+        "Proof: C01_agree_init, C01_agree_step, C01_agree_run (after every call of every history the machine driven by the "
+        "emitted statements is where g.position and g.state.position say, on every known axis, in the reported mode), "
+        "C01_trace_vertex (every vertex of every interpolated path is reached in either mode). Correspondence compares "
+        "emitted motion statements, both positions and both modes after every call; an independent Python interpreter "
+        "replays the real output.",
+        "Trusted: as C02. Exact arithmetic: float rounding inside to_absolute and the 5-decimal output rounding are sampled "
+        "(tolerance half a unit of the last decimal per word), not proved.",
+        "DESIGN.md section 7 / C01",
+    ),
     "C03": (
         "Lean 4 theorems over the Builder model (case analysis per command on the validation conjuncts, induction over "
         "interpolated paths) + differential correspondence with boundary-biased generation",
